@@ -315,6 +315,7 @@ pub struct LbSender {
 	tx: mpsc::UnboundedSender<String>,
 	wire: Arc<Mutex<Vec<String>>>,
 	replies: Arc<Mutex<Vec<String>>>,
+	notifs: Arc<Mutex<Vec<String>>>,
 }
 pub struct LbReceiver {
 	rx: mpsc::UnboundedReceiver<String>,
@@ -327,12 +328,14 @@ impl TransportSenderT for LbSender {
 		let methods = self.methods.clone();
 		let tx = self.tx.clone();
 		let replies = self.replies.clone();
+		let notifs = self.notifs.clone();
 		async move {
 			tokio::spawn(async move {
 				if let Ok((resp, mut rx)) = methods.raw_json_request(&msg, 1024).await {
 					replies.lock().push(resp.get().to_string());
 					let _ = tx.send(resp.get().to_string());
 					while let Some(n) = rx.recv().await {
+						notifs.lock().push(n.get().to_string());
 						if tx.send(n.get().to_string()).is_err() {
 							break;
 						}
@@ -362,9 +365,22 @@ pub struct Loop {
 	pub wire: Arc<Mutex<Vec<String>>>,
 	/// the direct replies of the server module, in the order they were produced
 	pub replies: Arc<Mutex<Vec<String>>>,
+	/// the notifications the server module produced
+	pub notifs: Arc<Mutex<Vec<String>>>,
 }
 
 impl Loop {
+	/// every notification produced so far goes out under the declared notification method name
+	pub fn notification_method_is(&self, want: &str) -> Result<(), String> {
+		for n in self.notifs.lock().iter() {
+			let v: Value = serde_json::from_str(n).unwrap_or(Value::Null);
+			if v["method"] != json!(want) {
+				return Err(format!("notification {n} does not carry the method name {want}"));
+			}
+		}
+		Ok(())
+	}
+
 	/// the unsubscribe request (the last message the client wrote) was answered `true`
 	pub fn unsubscribe_acknowledged(&self) -> Result<(), String> {
 		let last: Value = self.wire.lock().last().and_then(|s| serde_json::from_str(s).ok()).unwrap_or(Value::Null);
@@ -383,8 +399,9 @@ pub fn loopback() -> Loop {
 	let (tx, rx) = mpsc::unbounded_channel();
 	let wire = Arc::new(Mutex::new(vec![]));
 	let replies = Arc::new(Mutex::new(vec![]));
-	let client = ClientBuilder::default().build_with_tokio(LbSender { methods, tx, wire: wire.clone(), replies: replies.clone() }, LbReceiver { rx });
-	Loop { client, state, wire, replies }
+	let notifs = Arc::new(Mutex::new(vec![]));
+	let client = ClientBuilder::default().build_with_tokio(LbSender { methods, tx, wire: wire.clone(), replies: replies.clone(), notifs: notifs.clone() }, LbReceiver { rx });
+	Loop { client, state, wire, replies, notifs }
 }
 
 // ---------------------------------------------------------------------------------------------
@@ -748,6 +765,11 @@ impl SubCheck for Stubs {
 					let last: Value = w.last().and_then(|s| serde_json::from_str(s).ok()).unwrap_or(Value::Null);
 					let want_unsub = if matches!(via, Via::Alias(_)) { "unsub_alias" } else { "dot.unsub" };
 					obs.check(last["method"] == json!(want_unsub), "c17/wrong-unsubscribe-name-on-wire", || format!("{last}"));
+					drop(w);
+					// `name = "sub" => "notif"` inside namespace "dot" with separator ".": the items go out as dot.notif
+					if let Err(e) = lb.notification_method_is("dot.notif") {
+						obs.fail("c17/wrong-notification-method-name", format!("{e}; {}", desc()));
+					}
 				}
 				Call17::Shapes(items, n) => {
 					non_scalar = true;
@@ -775,6 +797,9 @@ impl SubCheck for Stubs {
 					drop(calls);
 					let first: Value = lb.wire.lock().first().and_then(|s| serde_json::from_str(s).ok()).unwrap_or(Value::Null);
 					obs.check(first["method"] == json!("subscribeShapes") && first["params"].is_object(), "c17/by-name-encoding-not-used", || format!("{first}"));
+					if let Err(e) = lb.notification_method_is("subscribeShapes") {
+						obs.fail("c17/wrong-notification-method-name", format!("{e}; {}", desc()));
+					}
 				}
 				Call17::SyncSub(items) => {
 					*lb.state.fail.lock() = None;
@@ -798,6 +823,10 @@ impl SubCheck for Stubs {
 					let calls = lb.state.calls.lock();
 					let ok = calls.len() == 1 && calls[0].0 == "sync_sub" && calls[0].1.downcast_ref::<(Vec<u64>,)>() == Some(&(items.clone(),));
 					obs.check(ok, "c17/arguments-differ", || format!("{}", desc()));
+					drop(calls);
+					if let Err(e) = lb.notification_method_is("subscribeSync") {
+						obs.fail("c17/wrong-notification-method-name", format!("{e}; {}", desc()));
+					}
 				}
 				Call17::Mid(a, b, cc) => {
 					opt_variation = a.is_none() || cc.is_none();
@@ -878,6 +907,10 @@ impl SubCheck for Stubs {
 					obs.check(first["method"] == json!("gen_sub"), "c17/wrong-method-name-on-wire", || format!("{first}"));
 					let last: Value = w.last().and_then(|s| serde_json::from_str(s).ok()).unwrap_or(Value::Null);
 					obs.check(last["method"] == json!("gen_unsub"), "c17/wrong-unsubscribe-name-on-wire", || format!("{last}"));
+					drop(w);
+					if let Err(e) = lb.notification_method_is("gen_sub") {
+						obs.fail("c17/wrong-notification-method-name", format!("{e}; {}", desc()));
+					}
 				}
 			}
 			if non_scalar || opt_variation {
